@@ -16,7 +16,7 @@ import reactivex.operators as ops
 
 from ..common import UnitResult, case_rng, chunks, show
 from ..vlab import Lab
-from ._c1x_common import (SUB_AT, build_source, gen_source, match_exact, n_elems, new_lab, run_pipeline, show_source,
+from ._c1x_common import (SUB_AT, build_source, gen_source, match_exact, new_lab, run_pipeline, show_source,
                           show_timed, show_trace)
 
 ID = "C10"
@@ -24,12 +24,13 @@ LEVEL = "exploration"
 RULE = ("seeded random cases: operator and call form (factory / operator / iterable or generator argument / handler "
         "function / source factory), 0..4 probe sources (cold, some hot or synchronous) with 0..3 elements ending in "
         "C / E / never (biased towards the kind the operator continues on), counts 0..4 and unbounded counts cut by "
-        "take(k), repeated sources either one probe or a defer() handing out a different probe per attempt; "
+        "take(k), subscription with scheduler=TestScheduler or without a scheduler argument (operators then fall back to "
+        "the CurrentThreadScheduler trampoline), repeated sources either one probe or a defer() handing out a different probe per attempt; "
         "non-trivial = at least two source subscriptions happened; distinct = digest of (operator, form, parameters, "
         "source timelines)")
 ASSUMPTIONS = ["reactivex.testing.TestScheduler is the clock (checked by C28)", "probe sources are harness code (conforming)",
                "reactivex.defer / take are used as case plumbing (checked by C37 / C05)"]
-CASES = {"quick": 6000, "thorough": 120000}
+CASES = {"quick": 6000, "thorough": 360000}
 UNIT_TIMEOUT = {"quick": 300, "thorough": 3600}
 OPS = ["concat", "concat_with_iterable", "for_in", "start_with", "repeat", "retry", "catch", "on_error_resume_next",
        "while_do", "do_while"]
@@ -122,6 +123,7 @@ def gen_case(r: Any, idx: int) -> dict:
             P["take"] = r.randint(1, 6)
     if "take" not in P and r.random() < 0.12:
         P["take"] = r.randint(1, 4)
+    P["scheduler_arg"] = r.random() < 0.7
     return {"op": op, "P": P, "srcs": srcs, "plan": plan, "domain": domain}
 
 
@@ -337,7 +339,7 @@ def run_case(seed: int, idx: int, res: UnitResult) -> None:
     lab = new_lab()
     S = {s["name"]: build_source(lab, s) for s in case["srcs"]}
     info: dict = {}
-    top = run_pipeline(lab, lambda: build(case, lab, S, info))
+    top = run_pipeline(lab, lambda: build(case, lab, S, info), with_scheduler=case["P"]["scheduler_arg"])
     actual = top.timed()
     expected, problems, st = monitor(case, lab, SUB_AT)
     desc = describe(case)
@@ -355,8 +357,11 @@ def run_case(seed: int, idx: int, res: UnitResult) -> None:
         res.note("ops_subscribing_inside_terminal_handler", case["op"] + ":" + str(case["P"].get("form", "")))
     if st["after_cut_subs"]:
         res.count("obs:subscriptions_after_output_ended", st["after_cut_subs"])
+        res.note("ops_subscribing_after_output_ended", case["op"] + ":" + str(case["P"].get("form", "")))
     if "take" in case["P"]:
         res.count("cases_cut_by_take")
+    if not case["P"]["scheduler_arg"]:
+        res.count("cases_subscribed_without_scheduler_argument")
     if any(s["kind"] == "sync" for s in case["srcs"]):
         res.count("cases_with_sync_source")
     if lab.events("escaped"):
